@@ -22,12 +22,13 @@ FLOOR = {"quick": 40, "thorough": 800}
 REQUIRED_COUNTERS = ["history_steps", "import_probes", "core_symbol_checks", "histories_with_repetition", "histories_with_spec_change",
                      "nonforce_steps", "core_depth_1", "core_depth_2", "core_depth_3", "core_depth_4", "core_depth_5", "core_depth_6", "core_depth_7", "core_depth_8",
                      "registry_contract_evals"]
-RULE = ("histories of (client, document, force) actions over 3 clients x 4 documents (declared error sets {404}, {422,500}, {}, {404,409,503}) "
+RULE = ("histories of (client, document, force) actions over 3 clients x 5 documents (declared error sets {404}, {422,500}, {}, {404,409,503}, {499,599}) "
         "x shared core at depth 1-4; quick: random histories of length 4; thorough: all two-step histories + random length 5-6; "
         "case = history; non-trivial = >=2 clients on one core and >=2 steps")
 ASSUMPTIONS = ["a non-force step that raises (differences found) is a visible failure and not judged here (C09/C10); the tree it leaves is still probed"]
 
-ERRSETS = {"d404": [404], "d422_500": [422, 500], "dnone": [], "d404_409_503": [404, 409, 503]}
+# (499 and 599 are not in the IANA registry: they get the generic Error<code> classes)
+ERRSETS = {"d404": [404], "d422_500": [422, 500], "dnone": [], "d404_409_503": [404, 409, 503], "d499_599": [499, 599]}
 # 5 and 6: a shared core whose directory name extends the directory name of one of the clients (shop / shop_core)
 # 7 and 8: the shared core IS the embedded core of the first client (generated with its default layout), later clients point at it
 CORES = {1: "sharedcore", 2: "acme.core", 3: "acme.shared.core", 4: "acme.platform.shared.core", 5: "shop_core", 6: "acme.shop_core",
